@@ -550,6 +550,8 @@ def run_all(ctx, res):
     core.prove(ctx, res, MODULES, THEOREMS)
     drv = ctx.driver("drv_c23")
     exe = ctx.harness("c23")
+    if os.environ.get("C23_CPPCHECK"):
+        res.oblig("machinery:cppcheck-override", False, "machinery", "C23_CPPCHECK is set: this run does not judge the working tree")
     if os.environ.get("C23_HARNESS"):
         # mutation experiments only (docs/C23.md): a harness linked against a hand-mutated copy of a lib source
         exe = os.environ["C23_HARNESS"]
@@ -768,13 +770,16 @@ def run_gates(ctx, res, exe, drv, gs, name):
                 if a == "0":
                     reported.add(int(i))
         uns = t["unsup"] if t["unsup"] != "_" else ""
-        seen_unsup_text = set()
-        seen_sup_text = set()
+        later = t.get("later", "")
+        later = later if later != "_" else ""
+        seen = {False: set(), True: set()}      # the two duplicate filters: mErrorList / mSuppressedErrorList
         res.count("gate:findings", len(kept))
         res.count("gate:reported", len(reported))
         for j, d in enumerate(dk):
             skip, internal, librep, crit, text, fid, syms, gfile = d
             unsup = uns[j] == "1"
+            # a finding that the executor will drop afterwards (logger without global suppressions) shares the filter of the suppressed ones
+            use_sup = (not unsup) or (not g["cfg"]["ug"] and j < len(later) and later[j] == "1")
             if internal == "1":
                 want = True
             elif librep != "1":
@@ -786,7 +791,7 @@ def run_gates(ctx, res, exe, drv, gs, name):
             elif text == "-":
                 want = False
             else:
-                want = g["cfg"]["dup"] or text not in seen_unsup_text
+                want = g["cfg"]["dup"] or text not in seen[use_sup]
             # the index reported by both sides is the first finding equal to this one: judge only first occurrences
             mk = lambda x: (tuple(dk[x]), g["fs"][kept[x]]["hasloc"], g["fs"][kept[x]]["line"], g["fs"][kept[x]]["hash"])   # the fields the gate reads
             first = [x for x in range(len(dk)) if mk(x) == mk(j)][0]
@@ -797,7 +802,7 @@ def run_gates(ctx, res, exe, drv, gs, name):
                               (j, g["fs"][kept[j]], "reported" if j in reported else "not reported", "no active suppression matches it" if want else "it is suppressed / filtered", g["cfg"], added),
                               dict(kind="gate", gate=g, index=j, real_reported=(j in reported), documented=want), concrete=True, key=key)
             if internal != "1" and librep == "1" and text != "-":
-                (seen_unsup_text if unsup else seen_sup_text).add(text)
+                seen[use_sup].add(text)
     return nviol
 
 
@@ -903,7 +908,7 @@ def cli_cases(ctx, res, drv, corpus, thorough, generate=True):
     rng = ctx.rng
     n = 60 if thorough else 6
     cases = [c["cli"] for c in corpus.get("cli", [])] + ([gen_cli_case(rng, k) for k in range(n)] if generate else [])
-    exe = ctx.cppcheck
+    exe = cli_binary(ctx)
     nf = 0
     for k, c in enumerate(cases):
         d = os.path.join(ctx.tmp, "cli%d" % k)
@@ -1011,11 +1016,16 @@ def gen_rp_project(rng, k):
     return dict(files=files, plan=plan, d1=d1, d2=d2)
 
 
+def cli_binary(ctx):
+    # C23_CPPCHECK: mutation experiments only (a binary linked against a hand-mutated lib source); the run is marked as not judging the tree
+    return os.environ.get("C23_CPPCHECK") or ctx.cppcheck
+
+
 def cli_rp_cases(ctx, res, corpus, thorough, generate=True):
     """--inline-suppr together with -rp (one / several / nested / absolute base paths) and -j2: an inline suppression applies
     to the file it is written in, however that file is spelled after the base paths were stripped"""
     rng = ctx.rng
-    exe = ctx.cppcheck
+    exe = cli_binary(ctx)
     projects = [c["rp"] for c in corpus.get("cli_rp", [])] + ([gen_rp_project(rng, k) for k in range(12 if thorough else 2)] if generate else [])
     judged = 0
     for k, pr in enumerate(projects):
